@@ -44,7 +44,7 @@ REQUIRED_COUNTERS = [
     "compares_mode_jit", "compares_mode_boundscheck", "compares_mode_nojit", "compares_with_outside_live",
     "frame_rows_checked", "histories_sparse_reads",
 ]
-TIMEOUT = {"quick": 600, "thorough": 3000}
+TIMEOUT = {"quick": 900, "thorough": 7200}
 
 #: True (or VERIF_C14_STRICT_REMOVE_ALL=1) judges "remove every cluster => their charge is no longer
 #: reported" (mechanism C14:remove-all:removed-charge-still-reported), see ASSUMPTIONS
